@@ -17,6 +17,12 @@ try:
 except Exception:
     base = {}
 pids = sys.argv[1:] or sorted(planmod.PLAN)
+if len(pids) > 1:
+    # one fresh process per property (as the checks themselves run): the in-process z3 context used for path pruning stays small
+    import subprocess
+    for pid in pids:
+        subprocess.call([sys.executable, os.path.abspath(__file__), pid])
+    sys.exit(0)
 for pid in pids:
     outs = verify_all(planmod.PLAN[pid], os.environ.get("VERIF_REPO", "/repo"))
     d = {}
